@@ -156,18 +156,27 @@ def show_atoms(x):
 
 
 def subterms(t):
-    yield t
-    if isinstance(t, tuple):
-        for x in t[1:]:
-            if isinstance(x, tuple):
-                if x and isinstance(x[0], str):
-                    for y in subterms(x):
-                        yield y
-                else:
-                    for z in x:
-                        if isinstance(z, tuple):
-                            for y in subterms(z):
-                                yield y
+    """every tagged term inside t (containers of terms -- argument tuples, keyword
+    pairs, generator clauses -- are looked through)"""
+    if not isinstance(t, tuple) or not t:
+        return
+    if isinstance(t[0], str) and t[0].isupper() or (isinstance(t[0], str) and t[0] in _TAGS):
+        yield t
+        rest = t[1:]
+    else:
+        rest = t
+    for x in rest:
+        if isinstance(x, tuple):
+            for y in subterms(x):
+                yield y
+
+
+_TAGS = frozenset(['P', 'K', 'A', 'S', 'SL', 'E', 'IDX', 'N', 'C', 'M', 'T', 'L', 'D', 'SET', 'O', 'G', 'B', 'U', 'IF', 'GLOB', 'BI', 'EXT',
+                   'FN', 'CLS', 'STAR', 'DSTAR', 'CLOSURE', 'LAMBDA', 'TOP', 'IT', 'V', 'MOD', 'COND', 'SLICE', 'FREE', 'SHARED_DEFAULT',
+                   'EXC', 'IMPLICIT', 'LOOPEXIT',
+                   # condition trees and atoms
+                   'lit', 'and', 'or', 'not', 'const', 'truthy', 'eq', 'is', 'in', 'cmp', 'isinstance', 'isnone', 'has_default',
+                   'has_annotation', 'exhausted', 'broke', 'raises'])
 
 
 def mentions(t, target):
